@@ -1390,12 +1390,19 @@ func familyBigRound(s *hlib.Suite, r *hlib.Rng, n int) {
 }
 
 func framesSame(a, b qframe.QFrame) bool {
-	if fmt.Sprint(a.ColumnNames()) != fmt.Sprint(b.ColumnNames()) || fmt.Sprint(a.ColumnTypes()) != fmt.Sprint(b.ColumnTypes()) {
+	same := false
+	// a frame with corrupted storage may panic while it is read: that is "not the same", never the end of the engine
+	if p, _ := hlib.Recover(func() {
+		if fmt.Sprint(a.ColumnNames()) != fmt.Sprint(b.ColumnNames()) || fmt.Sprint(a.ColumnTypes()) != fmt.Sprint(b.ColumnTypes()) {
+			return
+		}
+		if a.Len() == 0 && b.Len() == 0 {
+			same = true
+			return
+		}
+		same, _ = a.Equals(b)
+	}); p {
 		return false
 	}
-	if a.Len() == 0 && b.Len() == 0 {
-		return true
-	}
-	eq, _ := a.Equals(b)
-	return eq
+	return same
 }
